@@ -137,6 +137,11 @@ class FunctionEffects(ast.NodeVisitor):
                     b = base_name(value)
                     if b in self.params or b in self.alias or b == t.id:
                         self.alias[t.id] = t.id
+        elif isinstance(t, (ast.Tuple, ast.List)) and isinstance(value, (ast.Tuple, ast.List)) and len(value.elts) == len(t.elts) \
+                and not any(isinstance(x, ast.Starred) for x in list(t.elts) + list(value.elts)):
+            # a, b = x, y  binds pairwise
+            for te, ve in zip(t.elts, value.elts):
+                self.target(te, ve, node)
         elif isinstance(t, (ast.Tuple, ast.List)):
             for e in t.elts:
                 if isinstance(e, ast.Name) and value is not None and not self.is_fresh_expr(value):
